@@ -950,4 +950,15 @@ example : ∃ out, (iidLoop ([1/2, 1/2] : List ℚ) 3 (Rng.create .fast 1) #[]).
       rw [decide_eq_true_iff, div_lt_one (by positivity)]
       exact_mod_cast hx) 3 _
 
+/-- hypotheses of `dchoose_inverse_cdf` (the roll `1/2` on `[1/4, 3/4]` selects index 1: `1/4 ≤ 1/2 < 1`), of
+    `qrna_inplace_eq_separate` / `msaShuffle_inplace_eq_separate` (separate storage of the input's size) and of `markov1_conditional_exact` -/
+example : dchoose (1/2 : ℚ) [1/4, 3/4] = some 1 ∧ 0 < ([1/4, 3/4] : List ℚ).sum := by
+  constructor
+  · decide +kernel
+  · norm_num
+example : ∀ d, (Out.separate (#[1, 2] : Bytes)) = .separate d → d.size = (#[3, 4] : Bytes).size := by
+  intro d h; cases h; rfl
+example : (#[#[9, 9], #[9, 9]] : Array Bytes).size = (#[#[1, 2], #[3, 4]] : Array Bytes).size := rfl
+example : (∀ c ∈ [0, 1, 0], c < 2) ∧ 1 ∈ [0, 1, 0] := by decide
+
 end EaselModel.Props.C18
